@@ -88,7 +88,7 @@ fn sys_ns(t: std::time::SystemTime) -> u64 {
 /// 2 = ages relative to `now_abs`.
 fn canon_rec(out: &mut Vec<u8>, key: &ICAO, st: &rsadsb_common::AirplaneState, times: u8, now_abs: u64) {
     out.extend_from_slice(&key.0);
-    out.extend_from_slice(&st.num_messages.to_le_bytes());
+    out.extend_from_slice(&u64::from(st.num_messages).to_le_bytes());
     match &st.callsign {
         None => out.push(0),
         Some(s) => {
@@ -420,7 +420,7 @@ impl Tracker {
         }
         for (k, st) in s.real.iter() {
             if let Some(m) = s.model.recs.get(&icao_u32(k)) {
-                if st.num_messages != m.count {
+                if u64::from(st.num_messages) != u64::from(m.count) {
                     s.viol.push((12, "message-count".into(), format!("{k}: {}", m.count), format!("{k}: {}", st.num_messages)));
                 }
             }
@@ -721,7 +721,7 @@ impl Model for Tracker {
                             if !s.last_added {
                                 s.viol.push((15, "reported-as-new".into(), "Added::Yes for an address that was not tracked".into(), "Added::No".into()));
                             }
-                            if st.num_messages != 1 {
+                            if u64::from(st.num_messages) != 1 {
                                 s.viol.push((15, "fresh-record".into(), "count 1 after (re)appearance".into(), format!("{}", st.num_messages)));
                             }
                         }
@@ -1127,6 +1127,12 @@ pub fn c14(tier: Tier) -> i32 {
         let da = if tier.thorough() { 6 } else { 5 };
         let o = explore(&run, &format!("C14/altitudes/d{da}"), tracker(alphabet_c14_altitudes(rx), rx, 500.0, 1_000_000_000, 14), da);
         outs.push(("altitudes".into(), o));
+    }
+    // velocity reports one attribute apart (vertical rate only / track only / speed only): latest-wins per attribute
+    {
+        let dv = if tier.thorough() { 6 } else { 5 };
+        let o = explore(&run, &format!("C14/velocity/d{dv}"), tracker(alphabet_c14_velocity(), rx, 500.0, 1_000_000_000, 14), dv);
+        outs.push(("velocity".into(), o));
     }
     // the position-centred alphabet of C13 under the C14 oracles (track, views)
     let d2 = if tier.thorough() { 6 } else { 4 };
